@@ -309,9 +309,10 @@ func (v *tview) checkGet(o *getObs) *viol {
 	type state struct {
 		n    int // number of entries of the key in the state
 		best int // position into ents of the expected winner
+		m    int // the state holds the entries with idx <= m
 	}
 	var states []state
-	cur := state{best: -1}
+	cur := state{best: -1, m: o.Lo}
 	emitted := false
 	for _, p := range ps {
 		e := &v.ents[p]
@@ -327,6 +328,7 @@ func (v *tview) checkGet(o *getObs) *viol {
 		}
 		cur.n++
 		if e.idx > o.Lo {
+			cur.m = e.idx
 			states = append(states, cur)
 		}
 	}
@@ -376,6 +378,23 @@ func (v *tview) checkGet(o *getObs) *viol {
 			}
 		}
 	}
+	// is the answer one of the tied highest entries of some admissible state?
+	tied := false
+	for _, s := range states {
+		if s.best < 0 {
+			continue
+		}
+		for _, p := range ps {
+			e := &v.ents[p]
+			if e.idx > s.m {
+				break
+			}
+			if e.seq == v.ents[s.best].seq && e.del == (o.Val == nil) && (e.del || e.val == string(o.Val)) {
+				tied = true
+				match, best = e, &v.ents[s.best]
+			}
+		}
+	}
 	switch {
 	case match == nil:
 		if o.Val != nil && v.ignoredHas(o.K, o.Val) {
@@ -385,7 +404,7 @@ func (v *tview) checkGet(o *getObs) *viol {
 			return &viol{pre + "marker-instead-of-value", fmt.Sprintf("k%d reads as deleted, expected %v", o.K, best.d())}
 		}
 		return &viol{pre + "unknown-value", fmt.Sprintf("k%d returned val=%x which no entry of the key has; expected %v", o.K, o.Val, best.d())}
-	case match.seq == best.seq:
+	case tied || match.seq == best.seq:
 		return &viol{pre + "tie-not-latest", fmt.Sprintf("k%d returned %v; expected the most recently inserted of the entries with the highest sequence number, %v", o.K, match.d(), best.d())}
 	default:
 		return &viol{pre + "not-highest-seq", fmt.Sprintf("k%d returned %v; expected the entry with the highest sequence number %v", o.K, match.d(), best.d())}
